@@ -97,6 +97,15 @@ def rand_prim(rng, o, allow_occ=True):
                 f['pattern'] = rng.choice(PATTERNS)
             else:
                 f['values'] = rng.sample(['a', 'bb', 'c c', 'Δ', '0', 'None'], rng.randint(1, 4))
+    if getattr(o, 'defaults', False) and kind in ('Integer', 'Unicode', 'Boolean') and 'values' not in f and 'pattern' not in f and rng.random() < .2:
+        # a declared default (kept out of the fidelity universes: it legitimately turns absent into a value)
+        d_ = {'Integer': 5, 'Unicode': 'dfl', 'Boolean': True}[kind]
+        if kind == 'Integer':
+            d_ = max(d_, f.get('ge', d_), f.get('gt', d_ - 1) + 1)
+            d_ = min(d_, f.get('le', d_), f.get('lt', d_ + 1) - 1)
+        if kind == 'Unicode':
+            d_ = d_[:f.get('max_len', 3)].ljust(f.get('min_len', 0), 'x')
+        f['default'] = d_
     t = {'prim': kind, 'facets': f}
     if allow_occ:
         occ(rng, t)
@@ -174,6 +183,8 @@ def rand_universe(rng, o=None, uid=0):
                 for f in cands[st_:st_ + n_]:
                     f[1]['choice'] = 'g%d' % i
                     f[1].pop('min_occurs', None) if f[1].get('min_occurs') else None
+                    for inner in (f[1], f[1].get('array') or {}, f[1].get('seq') or {}):
+                        (inner.get('facets') or {}).pop('default', None)     # a default would make an unset choice member appear
         if getattr(o, 'memberless_subclasses', False) and base is not None and rng.random() < .4:
             fields = []          # a subclass that only inherits
         ns = nss[0] if base is None else next(t['ns'] for t in types if t['name'] == base)
